@@ -5,6 +5,7 @@ import SqlgrepModel.Lemmas.CivilAgree
 import SqlgrepModel.Lemmas.StrBytes
 import SqlgrepModel.Lemmas.FuncNum
 import SqlgrepModel.Lemmas.FuncTime
+import SqlgrepModel.Lemmas.FuncLeap
 import SqlgrepModel.Lemmas.FuncText
 import SqlgrepModel.Lemmas.FuncCast
 /-
@@ -17,6 +18,10 @@ A. **One calendar** (`Lemmas/CivilAgree.lean`): the evaluator's Hinnant-style `C
    table-driven `Civil` are the same function on every valid date / every day number of chrono's range. Consequences:
    `make_timestamp_iff`, `make_timestamp_type_error`, `extract_after_make_timestamp`, `extracted_timestamp_is_make_timestamp`,
    `date_trunc_calendar`, `date_trunc_sub_day`, `date_trunc_idempotent`, `date_trunc_unknown_part`.
+A′. **Leap seconds**: `leap_second_plus_interval`, `plain_timestamp_arithmetic`, `leap_second_difference`,
+   `leap_second_roundtrip`, `leap_second_midnight_flag`, `date_trunc_leap_second`, `epoch_value`;
+   `timestamp_minus_interval`, `plus_then_minus_interval` (D63, repaired); `make_timestamp_seven_arguments`,
+   `make_timestamp_iff7`, `make_timestamp_type_error7` (D64, repaired).
 B. **Numeric**: `least_is_lower_bound`, `greatest_is_upper_bound`, `least_greatest_null`,
    `least_greatest_type_error`, `abs_int`, `pow_int` / `pow_int_iff`.
    REAL: `sqrt`, `pow(REAL, REAL)` and REAL arithmetic are the IEEE-754 operations of Lean's `Float` (`F64.sqrt`,
@@ -64,7 +69,9 @@ def ValidCivil (y mo d h mi s us : Int) : Prop :=
   CivilE.validDate y mo d = true ∧ (0 ≤ h ∧ h < 24) ∧ (0 ≤ mi ∧ mi < 60) ∧ (0 ≤ s ∧ s < 60) ∧
     (0 ≤ us ∧ us < 2000000) ∧ (us < 1000000 ∨ s = 59)
 
-/-- `make_timestamp(y, mo, d, h, mi, s, us)` (the eighth argument is supplied by the lowering and ignored) **is a
+/-- `make_timestamp(y, mo, d, h, mi, s, us)` (stated for the historical eight-argument form whose last argument is
+ignored; the documented seven-argument call is the same function: `make_timestamp_seven_arguments`,
+`make_timestamp_iff7`) **is a
 TIMESTAMP iff the parts form a valid civil time** — then it is the day number of the date with the second of the day
 and the nanoseconds — and NULL otherwise (also when a part does not fit its machine field) -/
 theorem make_timestamp_iff (y mo d h mi s us : Int) (x : Value) :
@@ -84,9 +91,9 @@ theorem make_timestamp_iff (y mo d h mi s us : Int) (x : Value) :
     have hc : (CivilE.validDate y mo d && decide (h < 24) && decide (mi < 60) && decide (s < 60) && decide (us < 2000000) &&
         (decide (us < 1000000) || s == 59)) = true := by
       simp only [hv, Bool.and_eq_true, Bool.or_eq_true, decide_eq_true_eq, beq_iff_eq, true_and]; omega
-    simp only [callFunction, hfit, if_true, createTimestamp, hc, Option.getD_some]
+    simp only [callFunction, makeTimestampOf, hfit, if_true, createTimestamp, hc, Option.getD_some]
   · intro hn
-    simp only [callFunction]
+    simp only [callFunction, makeTimestampOf]
     split
     · have hc : ¬ (CivilE.validDate y mo d && decide (h < 24) && decide (mi < 60) && decide (s < 60) && decide (us < 2000000) &&
           (decide (us < 1000000) || s == 59)) = true := by
@@ -174,7 +181,7 @@ example : Lit.mkTimestamp 2024 2 29 23 59 59 1999999 = some (.timestamp 738945 8
 /-! ### date_trunc -/
 
 /-- a TIMESTAMP value chrono can hold: day number in `NaiveDate`'s range, second of day and nanosecond in range and
-not in the leap-second representation (on which the model makes no statement: `oracleMissing`) -/
+not in the leap-second representation (leap seconds: section A′ below) -/
 def TsInRange (d s f : Int) : Prop := (CivilE.dayMin ≤ d ∧ d ≤ CivilE.dayMax) ∧ TsPlain s f
 
 /-- the six `EXTRACT` fields of a timestamp value, as the evaluator computes them -/
@@ -271,7 +278,7 @@ theorem date_trunc_sub_day (p : String) (span : Int) (hp : (p, span) ∈ subDayP
   have hmodlt := Int.emod_lt_of_pos (tsTotal d s f) hpos
   refine ⟨d', s', f', ?_, hplain, htot, ?_, by omega, by omega, ?_⟩
   · simp only [callFunction]
-    rw [dateTrunc_sub_day _ _ hy hm hd hs d s f h.2.2.2 hin, e]
+    rw [dateTrunc_sub_day _ _ hy hm hd hs d s f h.2.2.1 h.2.2.2 hin, e]
   · rw [htot]
     have := Int.emod_add_mul_ediv (tsTotal d s f) span
     have e2 : tsTotal d s f - tsTotal d s f % span = span * (tsTotal d s f / span) := by omega
@@ -293,7 +300,7 @@ theorem date_trunc_idempotent (p : String) (span : Int) (hp : (p, span) ∈ subD
   cases hin : inI64 (tsTotal (d - 719163) s f) with
   | false =>
     simp only [callFunction] at hr
-    rw [dateTrunc_out_of_range _ _ hy hm hd hs d s f h.2.2.2 hin] at hr
+    rw [dateTrunc_out_of_range _ _ hy hm hd hs d s f h.2.2.1 h.2.2.2 hin] at hr
     cases hr
   | true =>
     obtain ⟨d', s', f', e, hplain, htot, hz, _⟩ := date_trunc_sub_day O p span hp d s f h hin
@@ -304,18 +311,18 @@ theorem date_trunc_idempotent (p : String) (span : Int) (hp : (p, span) ∈ subD
     | false =>
       right
       simp only [callFunction]
-      exact dateTrunc_out_of_range _ _ hy hm hd hs d' s' f' hplain.2.2.2 hin'
+      exact dateTrunc_out_of_range _ _ hy hm hd hs d' s' f' hplain.2.2.1 hplain.2.2.2 hin'
     | true =>
       left
       simp only [callFunction]
-      rw [dateTrunc_sub_day _ _ hy hm hd hs d' s' f' hplain.2.2.2 hin', hz, Int.sub_zero, tsOfTotal_tsTotal _ _ _ hplain]
+      rw [dateTrunc_sub_day _ _ hy hm hd hs d' s' f' hplain.2.2.1 hplain.2.2.2 hin', hz, Int.sub_zero, tsOfTotal_tsTotal _ _ _ hplain]
 
 theorem date_trunc_out_of_window (p : String) (span : Int) (hp : (p, span) ∈ subDayParts) (d s f : Int) (h : TsPlain s f)
     (hin : inI64 (tsTotal (d - 719163) s f) = false) :
     callFunction O .dateTrunc [.text (strBytes p), .timestamp d s f] = .error .failedToTruncate := by
   obtain ⟨hy, hm, hd, hs⟩ := subDay_facts p span hp
   simp only [callFunction]
-  exact dateTrunc_out_of_range _ _ hy hm hd hs d s f h.2.2.2 hin
+  exact dateTrunc_out_of_range _ _ hy hm hd hs d s f h.2.2.1 h.2.2.2 hin
 
 /-- the eight part names `date_trunc` knows -/
 def partNames : List String := ["year", "month", "day", "hour", "minute", "second", "milliseconds", "microseconds"]
@@ -359,6 +366,165 @@ example : ∀ n ∈ partNames, strBytes "week" ≠ strBytes n := by
   decide
 /-- 1677-09-21 00:12:43.5 is inside the i64 window, its hour is not: the second truncation fails -/
 example : inI64 (tsTotal (612411 - 719163) 763 500000000) = true ∧ inI64 (tsTotal (612411 - 719163) 0 0) = false := by decide
+
+/-! ## A′. leap seconds (`:60`) under timestamp arithmetic
+
+chrono represents a leap second as second-of-minute 59 with a nanosecond field in [10⁹, 2·10⁹). Such a value comes
+from the text `'… 23:59:60'` or from `make_timestamp(…, 59, µs ≥ 10⁶)`. The model mirrors chrono 0.4.39
+(`NaiveTime::overflowing_add_signed`, `signed_duration_since`, `timestamp_millis`, `duration_trunc`) exactly; these
+theorems say what that is. -/
+
+/-- **timestamp ± interval on a leap second** (`ts − iv` is `ts + (−iv)`): for every interval exactly one
+of three things happens — the value stays inside its leap second (only the fraction moves), it escapes forwards
+(the result is an ordinary timestamp whose linear count is `T + ns − 1 s`: the leap second counts as an elapsed
+second), or it escapes backwards (`T + ns`) -/
+theorem leap_second_plus_interval (d s f ns : Int) (hf : 1000000000 ≤ f ∧ f < 2000000000) :
+    ∃ d' s' f', tsShift d s f ns = .timestamp d' s' f' ∧
+      ((-1000000000 < ns ∧ f + ns < 2000000000 → d' = d ∧ s' = s ∧ f' = f + ns) ∧
+       (2000000000 ≤ f + ns → tsTotal d' s' f' = tsTotal d s f + ns - 1000000000 ∧ TsPlain s' f') ∧
+       (ns ≤ -1000000000 → tsTotal d' s' f' = tsTotal d s f + ns ∧ TsPlain s' f')) := by
+  obtain ⟨c1, _, _⟩ := leap_add_cases d s f ns hf
+  obtain ⟨d', s', f', e, k1, k2, k3⟩ := leap_add_instant d s f ns hf
+  refine ⟨d', s', f', e, fun h => ?_, k2, k3⟩
+  have := c1 h
+  rw [e] at this
+  injection this with a b c
+  exact ⟨a, b, c⟩
+
+/-- on ordinary timestamps nothing changed: the sum is the normalised timestamp at `T + ns`, the difference is
+`T − T'` -/
+theorem plain_timestamp_arithmetic (d s f d' s' f' ns : Int) (h : TsPlain s f) (h' : TsPlain s' f') :
+    tsShift d s f ns = tsOfTotal (tsTotal d s f + ns) ∧ tsDiff d s f d' s' f' = tsTotal d s f - tsTotal d' s' f' :=
+  ⟨tsShift_plain d s f ns h.2.2.2, tsDiff_plain d s f d' s' f' h.2.2.2 h'.2.2.2⟩
+
+/-- **timestamp − timestamp with leap seconds**: the difference of the linear counts, plus one second when the left
+operand has the later second of day and the right one is a leap second, minus one when it is the other way round -/
+theorem leap_second_difference (d s f d' s' f' : Int) :
+    arith .sub (.timestamp d s f) (.timestamp d' s' f') = .ok (.interval (tsTotal d s f - tsTotal d' s' f' +
+      (if s > s' ∧ f' ≥ 1000000000 then 1000000000 else if s < s' ∧ f ≥ 1000000000 then -1000000000 else 0))) := by
+  simp only [arith, tsDiff_eq]
+
+/-- `(t + iv) − t = iv` for a leap second `t`, within the day (see `leap_add_then_diff`); across midnight chrono's
+difference is off by the leap second — kernel-checked witness (mirrors the code; flagged) -/
+theorem leap_second_roundtrip (d s f ns d' s' f' : Int) (hf : 1000000000 ≤ f ∧ f < 2000000000)
+    (hr : tsShift d s f ns = .timestamp d' s' f')
+    (hside : (-1000000000 < ns ∧ f + ns < 2000000000) ∨ (2000000000 ≤ f + ns ∧ s < s') ∨ (ns ≤ -1000000000 ∧ s' ≤ s)) :
+    arith .sub (.timestamp d' s' f') (.timestamp d s f) = .ok (.interval ns) := by
+  simp only [arith, leap_add_then_diff d s f ns d' s' f' hf hr hside]
+
+theorem leap_second_midnight_flag :
+    tsShift 736329 86399 1500000000 1000000000 = .timestamp 736330 0 500000000 ∧
+    tsDiff 736330 0 500000000 736329 86399 1500000000 = 0 ∧
+    tsDiff 736330 0 0 736329 86399 1500000000 = -500000000 ∧
+    Value.cmp (.timestamp 736330 0 0) (.timestamp 736329 86399 1500000000) = .gt := leap_diff_midnight_flag
+
+/-- **`date_trunc('hour' … 'microseconds', t)` for any `t` in the window, leap seconds included**: `t` moved back by
+`stamp mod span` with chrono's rules, where the stamp of `:60 + φ` is that of the following second `+ φ`; the
+subtraction cannot overflow (`dateTrunc_shift_in_range`: no panic site). FLAG: a leap second truncated to 'second',
+'minute' (or 'hour' at `hh:59:60`) is the START OF THE LEAP SECOND `…:59:60.000`, not the start of the minute or
+hour — the code and chrono agree on this; the README's "truncate" would give `…:59:00`. -/
+theorem date_trunc_leap_second (p : String) (span : Int) (hp : (p, span) ∈ subDayParts) (d s f st : Int)
+    (hs : 0 ≤ s ∧ s < 86400) (hf : 1000000000 ≤ f ∧ f < 2000000000) (hst : stampNs d s f = some st) :
+    callFunction O .dateTrunc [.text (strBytes p), .timestamp d s f] = .ok (tsShift d s f (-(st % span))) ∧
+    st = tsTotal (d - 719163) s f ∧
+    tsAdd d s f (-(st % span)) = .ok (tsShift d s f (-(st % span))) ∧
+    ((span = 1000000000 ∨ (span = 60000000000 ∧ s % 60 = 59) ∨ (span = 3600000000000 ∧ s % 3600 = 3599)) →
+      tsShift d s f (-(st % span)) = .timestamp d s 1000000000) := by
+  obtain ⟨hy, hm, hd, hsp⟩ := subDay_facts p span hp
+  have e := stampNs_some d s f st hst
+  refine ⟨?_, e, dateTrunc_shift_in_range d s f st span hs ⟨by omega, hf.2⟩ hst (truncSpan_isSubDay _ _ hsp), fun h => ?_⟩
+  · simp only [callFunction]
+    exact dateTrunc_span_closed _ _ hy hm hd hsp d s f st hst
+  · rw [e]; exact dateTrunc_leap_is_leap_start d s f span hf h
+
+/-- `EXTRACT(EPOCH FROM t)` is `timestamp_millis() / 1000.0` for every timestamp; in a leap second the millisecond
+field runs to 1999, so the epoch of `:60 + φ` is that of the following second `+ φ` -/
+theorem epoch_value (d s f : Int) :
+    callFunction O .epoch [.timestamp d s f] =
+      .ok (.real (F64.div (F64.ofInt ((d - 719163) * 86400000 + s * 1000 + f / 1000000)) (F64.ofInt 1000))) := rfl
+
+/-- **`ts − iv = ts + (−iv)`**, and every other operator between a TIMESTAMP and an INTERVAL — `*`, `/`, and
+`iv − ts` — has no value (finding D63, repaired in /repo 91aa1f4: the code used to add whatever the operator was) -/
+theorem timestamp_minus_interval (d s f ns : Int) :
+    arith .sub (.timestamp d s f) (.interval ns) = arith .add (.timestamp d s f) (.interval (-ns)) ∧
+    arith .add (.interval ns) (.timestamp d s f) = arith .add (.timestamp d s f) (.interval ns) ∧
+    arith .mul (.timestamp d s f) (.interval ns) = .error .undefinedOperation ∧
+    arith .div (.timestamp d s f) (.interval ns) = .error .undefinedOperation ∧
+    arith .sub (.interval ns) (.timestamp d s f) = .error .undefinedOperation ∧
+    arith .mul (.interval ns) (.timestamp d s f) = .error .undefinedOperation ∧
+    arith .div (.interval ns) (.timestamp d s f) = .error .undefinedOperation :=
+  ⟨rfl, rfl, rfl, rfl, rfl, rfl, rfl⟩
+
+/-- **`(ts + iv) − iv = ts`** for an ordinary timestamp, whenever both steps have a value -/
+theorem plus_then_minus_interval (d s f ns : Int) (r v : Value) (h : TsPlain s f)
+    (h1 : arith .add (.timestamp d s f) (.interval ns) = .ok r) (h2 : arith .sub r (.interval ns) = .ok v) :
+    v = .timestamp d s f := by
+  have e1 : tsAdd d s f ns = .ok r := h1
+  unfold tsAdd at e1
+  rw [tsShift_plain d s f ns h.2.2.2] at e1
+  obtain ⟨d1, s1, f1, et, hp, htot⟩ := tsTotal_tsOfTotal (tsTotal d s f + ns)
+  rw [et] at e1
+  dsimp only at e1
+  split at e1
+  · injection e1 with e1
+    subst e1
+    have e2 : tsAdd d1 s1 f1 (-ns) = .ok v := h2
+    unfold tsAdd at e2
+    rw [tsShift_plain d1 s1 f1 (-ns) hp.2.2.2, htot] at e2
+    have e3 : tsTotal d s f + ns + -ns = tsTotal d s f := by omega
+    rw [e3, tsOfTotal_tsTotal d s f h] at e2
+    dsimp only at e2
+    split at e2
+    · injection e2 with e2; exact e2.symm
+    · cases e2
+  · cases e1
+
+example : arith .sub (.timestamp 736329 36000 0) (.interval 3600000000000) = .ok (.timestamp 736329 32400 0) ∧
+    arith .add (.timestamp 736329 36000 0) (.interval 3600000000000) = .ok (.timestamp 736329 39600 0) ∧
+    TsPlain 36000 0 := ⟨by rfl, by rfl, by unfold TsPlain; omega⟩
+
+/-- **the documented seven-argument `make_timestamp` is the same function** (finding D64, repaired in /repo 7252aee:
+an eighth, never read argument used to be required and is still accepted): every theorem above about the
+eight-argument call holds for the README's call -/
+theorem make_timestamp_seven_arguments (y mo d h mi s us : Int) (x : Value) :
+    callFunction O .makeTimestamp [.int y, .int mo, .int d, .int h, .int mi, .int s, .int us] =
+    callFunction O .makeTimestamp [.int y, .int mo, .int d, .int h, .int mi, .int s, .int us, x] := rfl
+
+theorem make_timestamp_iff7 (y mo d h mi s us : Int) :
+    (ValidCivil y mo d h mi s us →
+      callFunction O .makeTimestamp [.int y, .int mo, .int d, .int h, .int mi, .int s, .int us] =
+        .ok (.timestamp (CivilE.daysFromCE y mo d) (h * 3600 + mi * 60 + s) (us * 1000))) ∧
+    (¬ ValidCivil y mo d h mi s us →
+      callFunction O .makeTimestamp [.int y, .int mo, .int d, .int h, .int mi, .int s, .int us] = .ok .null) := by
+  rw [make_timestamp_seven_arguments O y mo d h mi s us .null]
+  exact make_timestamp_iff O y mo d h mi s us .null
+
+/-- a part that is not an INT is an error in the seven-argument form too; six or nine arguments are no call of it -/
+theorem make_timestamp_type_error7 (a b c d e f g : Value)
+    (h : (isInt a && isInt b && isInt c && isInt d && isInt e && isInt f && isInt g) = false) :
+    callFunction O .makeTimestamp [a, b, c, d, e, f, g] = .error .undefinedFunction := by
+  cases a <;> (try rfl) <;> cases b <;> (try rfl) <;> cases c <;> (try rfl) <;> cases d <;> (try rfl) <;>
+    cases e <;> (try rfl) <;> cases f <;> (try rfl) <;> cases g <;> (try rfl)
+  simp [isInt] at h
+
+example : callFunction {} .makeTimestamp [.int 2024, .int 2, .int 29, .int 13, .int 45, .int 12, .int 0] =
+    .ok (.timestamp 738945 49512 0) ∧
+    callFunction {} .makeTimestamp [.int 1, .int 1, .int 1, .int 1, .int 1, .int 1] = .error .undefinedFunction ∧
+    callFunction {} .makeTimestamp [.int 1, .int 1, .int 1, .int 1, .int 1, .int 1, .int 1, .int 1, .int 1] = .error .undefinedFunction :=
+  ⟨rfl, rfl, rfl⟩
+
+example : stampNs 736329 86399 1500000000 = some 1483228800500000000 := by decide
+example : ("minute", (60000000000 : Int)) ∈ subDayParts ∧ (86399 : Int) % 60 = 59 := by decide
+example : tsShift 736329 86399 1500000000 (-(1483228800500000000 % 60000000000)) = .timestamp 736329 86399 1000000000 := by
+  have h := dateTrunc_leap_is_leap_start 736329 86399 1500000000 60000000000 ⟨by decide, by decide⟩ (Or.inr (Or.inl ⟨rfl, by decide⟩))
+  have e : tsTotal (736329 - 719163) 86399 1500000000 = 1483228800500000000 := by decide
+  rw [e] at h; exact h
+example : tsShift 736329 86399 1500000000 499999999 = .timestamp 736329 86399 (1500000000 + 499999999) ∧
+    tsShift 736329 86399 1500000000 500000000 = tsOfTotal (tsTotal 736329 86399 (1500000000 - 1000000000) + 500000000) ∧
+    tsShift 736329 86399 1500000000 (-1000000000) = tsOfTotal (tsTotal 736329 (86399 + 1) (1500000000 - 1000000000) + -1000000000) :=
+  ⟨(leap_add_cases _ _ _ _ ⟨by decide, by decide⟩).1 ⟨by decide, by decide⟩,
+   (leap_add_cases _ _ _ _ ⟨by decide, by decide⟩).2.1 (by decide),
+   (leap_add_cases _ _ _ _ ⟨by decide, by decide⟩).2.2 (by decide)⟩
 
 /-! ## B. numeric functions -/
 
